@@ -240,6 +240,9 @@ def c20(ctx, api):
                                          cfg(constants={'Emit': 'TRUE', 'Prop': '"C20"', 'Big': tb(ctx['tier'] == 'thorough')}), timeout=3000)
     acc.add('GenArith: == != < <= > >= and contains on operands up to 34 digits (2^53, 2^53+1, 2^63 ...) carried as json.Number, decimal, '
             'int64, uint64, float64 in mixed pairs (oracle: Decimal.tla)', st, summ)
+    st, summ = api['run_tlc_to_harness'](ctx, 'docdepth', 'GenCost', cfg(constants={'Emit': 'TRUE', 'Prop': '"C20"'}), timeout=1500,
+                                         harness_args=['-only', 'docscale', '-timeout', '120s', '-workers', '8'])
+    acc.add('equality and containment on documents nested 64 .. 8192 and 100000 levels deep (same outcome at every depth: DepthLemma)', st, summ)
     return acc.result(RULE_PINNED, extra={'model_checks': ['Reflexive', 'Symmetric', 'Transitive', 'TypeStrict',
                                                            'NeIsNegation', 'ContainsIsExistsEq', 'FiveFalseLike',
                                                            'AndOrReturnOperand']})
@@ -278,6 +281,10 @@ def c02(ctx, api):
                                          cfg(constants={'Emit': 'TRUE', 'Prop': '"C02"', 'Lengths': '{0, 1, 3, 13, 20, 40}',
                                                         'Seeds': '{%d}' % ctx['seed']}), timeout=3000)
     acc.add('GenSort: sort_by / max_by / min_by / sort / max / min on arrays beyond the pool sizes (stability, extremal elements)', st, summ)
+    st, summ = api['run_tlc_to_harness'](ctx, 'apply', 'GenApply', cfg(constants={'Emit': 'TRUE', 'Prop': '"C02"'}), timeout=1500)
+    acc.add('GenApply: every function x argument count x position of @, pool literals (also through a let variable) at the other positions, '
+            'projected / mapped over an array of every admissible pool value and on single elements; the compiled expression is re-used '
+            'across a perturbed document', st, summ)
     st, summ = api['run_tlc_to_harness'](ctx, 'intarg', 'GenIntArg', cfg(constants={'Emit': 'TRUE', 'Prop': '"C02"'}), timeout=1500)
     acc.add('GenIntArg: 32 numeral spellings (3e0, 30e-1, 3.0000000000000001, 1e-400 ...) in 8 integer-argument positions; '
             'integrality and value decided by Decimal.tla', st, summ)
@@ -416,6 +423,10 @@ def c06(ctx, api):
     consts = {'Emit': 'TRUE', 'Prop': '"C06"', 'MaxCalls': 8, 'MaxDocs': 7, 'NTexts': 200}
     st, summ = api['run_tlc_to_harness'](ctx, 'api-sim', 'API', api_cfg(consts), simulate=sim, timeout=1500)
     acc.add('API.tla -simulate: histories of <= 8 calls over all 95 texts', st, summ, exhaustive=False)
+    st, summ = api['run_tlc_to_harness'](ctx, 'apply', 'GenApply', cfg(constants={'Emit': 'TRUE', 'Prop': '"C06"'}), timeout=1500)
+    acc.add('GenApply: every function x argument count x position of @, pool literals (also through a let variable) at the other positions, '
+            'projected / mapped over an array of every admissible pool value and on single elements; the compiled expression is re-used '
+            'across a perturbed document', st, summ)
     tv = api['run_api_trace_validation'](ctx, 'api-traces', 400 if thorough else 120, 12, ctx['seed'])
     acc.add_traces('trace validation: random histories recorded from the real API, consumed event by event by TraceAPI.tla '
                    '(POSTCONDITION: every line consumed, no unexplainable event)', tv)
@@ -493,6 +504,12 @@ def c18(ctx, api):
     consts = {'Emit': 'TRUE', 'Prop': '"C18"', 'MaxCalls': 4 if thorough else 3, 'MaxDocs': 6, 'NTexts': 8 if thorough else 5}
     st, summ = api['run_tlc_to_harness'](ctx, 'api', 'API', api_cfg(consts), timeout=3000)
     acc.add('API.tla histories with FeedBack (a result becomes a document of later calls)', st, summ)
+    st, summ = api['run_tlc_to_harness'](ctx, 'apply', 'GenApply', cfg(constants={'Emit': 'TRUE', 'Prop': '"C18"'}), timeout=1500)
+    acc.add('GenApply: every function x argument count x position of @, pool literals (also through a let variable) at the other positions, '
+            'projected / mapped over an array of every admissible pool value and on single elements; the compiled expression is re-used '
+            'across a perturbed document', st, summ)
+    tv = api['run_api_trace_validation'](ctx, 'api-traces', 300 if thorough else 80, 12, ctx['seed'] + 7)
+    acc.add_traces('trace validation: random histories with fed-back results recorded from the real API, validated by TraceAPI.tla', tv)
     return acc.result(RULE_PINNED + '; every successful result is also walked for non-JSON Go types and must survive json.Marshal/decode unchanged',
                       extra={'model_checks': ['PipeLaw', 'Closed']})
 
@@ -515,6 +532,11 @@ def c15(ctx, api):
         acc.add('GenLet (duplicate names in one let, multi-select hashes) x %d evaluations' % reps, st, summ)
     finally:
         ctx['harness_env'] = {}
+    # the outcome of a call must not depend on the calls made before it (process-wide state, caches)
+    consts = {'Emit': 'TRUE', 'Prop': '"C15"', 'MaxCalls': 3 if thorough else 2, 'MaxDocs': 6, 'NTexts': 200}
+    st, summ = api['run_tlc_to_harness'](ctx, 'api-space', 'API', api_cfg(consts, 'SpaceSel'), timeout=3000)
+    acc.add('API.tla: every history of <= %d calls over a text and its blank-variants: the outcome of a call is the one the specification '
+            'assigns to it alone, whatever was compiled or searched before' % consts['MaxCalls'], st, summ)
     return acc.result(RULE_PINNED + '; every case is evaluated repeatedly with independently rebuilt maps and fresh compilations; '
                       'outcomes must be equal, as multisets only at arrays the specification marks as unordered (for unpinned cases: '
                       'equal up to array order)', extra={'repetitions': reps})
